@@ -10,7 +10,7 @@ from hvsim.model import Layer, View, describe, first_mismatch
 from hvsim.simfs import monitored
 from hvsim.world import World
 
-STEP_LIMIT = 3_000_000  # per reader call in conformance worlds; a fault-free call needs < 50k
+STEP_LIMIT = 400_000  # loop/call events per reader call in conformance worlds (fault-free calls need < 20k)
 
 
 def fmt_module(fmt: str):
@@ -42,6 +42,11 @@ def gen_case(seed: int, prop: str, tier: str, fmt: str | None = None) -> dict:
     caps = F.caps(cfg)
     nops = rng.choice([0, 1, 2, 3, 3, 4, 6, 10, 20] if tier == "quick" else [0, 1, 2, 3, 4, 6, 10, 20, 40])
     ops = gen.gen_layer_ops(rng, nsectors, unit, caps, nops, 1, F.has_below(cfg), F.hot_units(cfg), gran=sector // 512)
+    sp = getattr(F, "spray", None)
+    if sp is not None and rng.random() < 0.06:
+        stride, count = sp(cfg)
+        if stride:
+            ops = gen.spray_ops(rng, nsectors, unit, stride, count, 5000, gran=sector // 512) + ops
     case = {"engine": "disk", "prop": prop, "fmt": fmt, "seed": seed, "align": align, "cfg": cfg, "ops": ops}
     # requests are generated against the final layer state
     layers, view = build_model(case)
@@ -121,7 +126,7 @@ def run_case(case: dict) -> RunResult:
 
     with world.fs, monitored():
         try:
-            with metered(STEP_LIMIT):
+            with metered(STEP_LIMIT, "loop", world.step_allowance(STEP_LIMIT, 2.0, img.meta_bytes)):
                 stream = F.open(world, main, img, case["open"])
             log.add("acquirer", "open", case["open"], "ok")
         except BudgetExceeded:
@@ -135,7 +140,7 @@ def run_case(case: dict) -> RunResult:
             sector = F.sector_size(case["cfg"])
             for op in case["cops"]:
                 try:
-                    with metered(STEP_LIMIT):
+                    with metered(STEP_LIMIT, "loop", world.step_allowance(STEP_LIMIT, 2.0, img.meta_bytes + op[2] * 512)):
                         if op[0] == "r":
                             off, ln = op[1], op[2]
                             stream.seek(off)
